@@ -54,7 +54,8 @@ InitCtx(ev) ==
   [r |-> RegsOf(ev.r), m |-> CellsOf(ev.cells),
    dev |-> [mk |-> ev.dev[1], seed |-> ev.dev[2], val |-> ev.dev[3], len |-> ev.dev[4],
             img |-> IF "img" \in DOMAIN ev THEN ev.img ELSE <<>>],
-   io |-> [ik |-> ev.io[1], seed |-> ev.io[2], len |-> ev.io[3]], iom |-> CellsOf(ev.iocells), nin |-> 0,
+   io |-> [ik |-> ev.io[1], seed |-> ev.io[2], len |-> ev.io[3]], iom |-> CellsOf(ev.iocells),
+   nin |-> IF "nin" \in DOMAIN ev THEN ev.nin ELSE 0,
    rd |-> <<>>, wr |-> <<>>, pio |-> <<>>, halt |-> ev.h = 1, hc |-> <<0, 0>>,
    ovl |-> NoOvl, v |-> 0, u |-> 0, ralt |-> FALSE, tag |-> "", pend |-> PendOf(ev.pend),
    aei |-> FALSE, rslack |-> 0]
@@ -159,6 +160,8 @@ MirrorOK(dd, fd) ==
   /\ fd.rd = dd.rd /\ fd.wr = dd.wr /\ fd.pio = dd.pio
   \* no device saw the other index register changed at any access of the Step
   /\ dd.moved = 0 /\ fd.moved = 0
+  \* and a device that looks at CPU.PC during its callbacks sees the same values for both forms
+  /\ dd.pcs = fd.pcs
 \* x2 = the same run with the other index register (positions i1, i2) changed
 NoInterf(x, x2, i1, i2) ==
   /\ x2.post[i1] = x2.pre[i1] /\ x2.post[i2] = x2.pre[i2]
@@ -213,7 +216,7 @@ NoRun == [on |-> FALSE]
 RunTarget == IF Ev.err = "ctx" THEN Ev.nacc ELSE -1     \* cancelled runs: stop at the logged access count
 
 RunBegin ==
-  /\ l <= Len(TraceLog) /\ Ev.e = "r" /\ ~rs.on /\ ~done
+  /\ l <= Len(TraceLog) /\ ~rs.on /\ ~done /\ Ev.e = "r"
   /\ rs' = [on |-> TRUE, S |-> {RunStartB(c, SchedOf(Ev.sched), BpOf(Ev),
                                            IF Len(Ev.bpswap) = 0 THEN [at |-> 0]
                                            ELSE [at |-> Ev.bpswap[1],
@@ -289,7 +292,7 @@ HangEnd ==
           /\ cov' = Bump(cov, "REJECTED")
      ELSE bad' = bad /\ cov' = Bump(cov, "hang of a program that does not halt in the specification (ignored)")
 
-EvRun == RunBegin \/ (RunIter /\ "hang" \notin DOMAIN rs) \/ (RunEnd /\ "hang" \notin DOMAIN rs)
+EvRun == RunBegin \/ ("hang" \notin DOMAIN rs /\ RunIter) \/ ("hang" \notin DOMAIN rs /\ RunEnd)
          \/ HangBegin \/ HangIter \/ HangEnd
 
 \* a Run that did not return (watchdog) - never a behaviour of a halting program (C12)
